@@ -136,6 +136,21 @@ Theorem C21_references_alive : forall ops i r,
 Proof. exact references_alive. Qed.
 Print Assumptions C21_references_alive.
 
+(* whatever the collector frees is finalised: every member of a garbage set (a set closed under
+   the reference edges of Model.refs_of, i.e. the edges tp_traverse reports; for a wrapper:
+   destructor AND origobj, independently of each other) is dead afterwards and a remaining
+   destructor has run exactly once.  That gc.collect() frees exactly the objects unreachable under
+   these edges is runtime hypothesis R1; the correspondence run checks it on every history,
+   directed cycle shapes through the origobj edge included. *)
+Theorem C21_collect_frees_members : forall ops G i,
+  let s := run ops in
+  garbage s G = true -> In i G ->
+  let s' := step s (OCollect G) in
+  alive (get s' i) = false /\
+  (is_gcp (get s' i) = true -> had (get s' i) = true -> cancelled (get s' i) = false -> calls (get s' i) = 1).
+Proof. exact collect_frees_members. Qed.
+Print Assumptions C21_collect_frees_members.
+
 (* non-vacuity: a wrapper in a reference cycle with its own destructor's closure; a release
    followed by collection; a cancelled destructor; an allocator struct pointer released while
    aliased; two from_buffer views *)
@@ -155,4 +170,12 @@ Example C21_example_allocator_frombuf :
                 ONewPy 4; OFromBuffer 3 5; OFromBuffer 3 6; ORelease 4; ODrop 5; OCollectAuto] in
   observe s = [(false, 0, false); (true, 1, false); (false, 0, false);
                (true, 0, false); (true, 0, false); (false, 0, false)].
+Proof. vm_compute. reflexivity. Qed.
+
+(* a cycle that closes only through the origobj edge of a wrapper whose destructor was removed:
+   y -> W -> (origobj) handle -> y; everything is freed *)
+Example C21_example_origobj_cycle :
+  let s := run [ONewPy 1; ONewHandle 0 2; OGc 1 3 None; OGcNone 2; OSetRef 0 2; ODrop 1; ODrop 2; ODrop 0;
+                OCollectAuto] in
+  observe s = [(false, 0, false); (false, 0, false); (false, 0, false)].
 Proof. vm_compute. reflexivity. Qed.
